@@ -347,7 +347,7 @@ class Interp:
                 return UNINIT
             raise Unsupported("field %d of %r" % (i, v))
         if kind == "e":
-            if isinstance(v, (Arr, VecV)):
+            if isinstance(v, (Arr, VecV)) or type(v).__name__ == "DequeV":
                 if i >= len(v.elems):
                     raise Diverge("index %d out of bounds (len %d)" % (i, len(v.elems)))
                 return v.elems[i]
@@ -396,7 +396,7 @@ class Interp:
                 return v
             raise Unsupported("write field %d of %r" % (i, v))
         if kind == "e":
-            if isinstance(v, (Arr, VecV)):
+            if isinstance(v, (Arr, VecV)) or type(v).__name__ == "DequeV":
                 if i >= len(v.elems):
                     raise Diverge("index %d out of bounds on write (len %d)" % (i, len(v.elems)))
                 es = list(v.elems)
@@ -534,6 +534,10 @@ class Interp:
                     r = self.h.transmute(self, a, rv["ty"])
                     if r is not None:
                         return r
+                # pointer-like value reinterpreted as another pointer type (NonNull<T> -> *const T, &T -> *const T): the same reference
+                if isinstance(a, Ref) and (rv["ty"].startswith("*const ") or rv["ty"].startswith("*mut ") or rv["ty"].startswith("&")
+                                           or rv["ty"].startswith("std::ptr::NonNull<")):
+                    return a
                 return self.abstract_of(rv["ty"], tags_of(a) | {"transmute"})
             return self.abstract_of(rv["ty"], tags_of(a))
         if k == "discr":
